@@ -205,7 +205,7 @@ func init() {
 		MustReach: []string{"decoded", "rejected", "routed", "C01.field.consumed-size", "entry-points-returned"},
 		Bounds: map[string]interface{}{
 			"quick": "H01a (parse one record, then hand the message to a File of every hosting type, which routes it and expands components): every single-field definition, exhaustively: each of the profile's message numbers (from the tree) plus one unknown number x all 256 field numbers x all 256 base-type bytes x all sizes 0-255 x both byte orders x all data bytes (string sizes restricted to {0..8,16,127,128,254,255}; string arrays: sizes 0..6 fully symbolic, larger with one terminator); H01s: all five entry points (Decode also with all options) on every stream of the model with n = 2 records, whole and (half of the sequences) cut at every offset, chunk sizes 1, 3, unlimited; H13/H13b: one record through the dispatcher from an arbitrary reference timestamp",
-			"thorough": "H01a with every string size and two terminators in long string arrays; H01s with n = 3 and every sequence cut",
+			"thorough": "H01a with every string size and two terminators in string arrays of up to 24 bytes; H01s with n = 3 (every third of the 1000 kind orders) and every sequence cut",
 		},
 		Assumptions: commonAssumptions,
 	})
@@ -406,7 +406,7 @@ func init() {
 			js := msgJobs(meta, "fit", "H02a", "allstr", allstr)
 			maxb := 3
 			if tier == "thorough" {
-				maxb = 0
+				maxb = 8
 			}
 			for menu := 0; menu <= 4; menu++ {
 				for first := 0; first <= 1; first++ {
@@ -418,7 +418,7 @@ func init() {
 		MustReach: []string{"C02.compatible-definition-accepted", "C02.compatible-record-decodes", "C02.value.scalar", "C02.value.time", "C02.value.localtime", "C02.value.lat", "C02.value.lng", "C02.value.string", "C02.value.string-array", "C02.value.array-element", "C02.absent-fields-invalid", "compared", "C02.multi.definition-accepted", "C02.multi.record-decodes", "C02.multi.absent-fields-invalid", "C02.multi.consumed", "compared-multi", "C02.second-record-decodes", "compared-second"},
 		Bounds: map[string]interface{}{
 			"quick":    "single-field definitions: every profile message x every listed field x every compatible (base type, size) pair x both byte orders x all data bytes, compared with a reference decoder, each followed by a second record under the same definition that carries the invalid value; string sizes restricted to {0..8,16,127,128,254,255}; string arrays: sizes 0..6 fully symbolic, larger sizes with one terminator at any position; two-field definitions (H02b): a disturber (time/coordinate field at any compatible width, unlisted field of 1-4 bytes, developer field of 1-4 bytes, string of 1-3 bytes, array of 1-2 elements) before or after any known scalar field among the message's first 3 struct fields at its profile type, both byte orders, all data bytes",
-			"thorough": "as quick with every string size 0..255, two terminators in long string arrays, and every scalar field as neighbour in H02b",
+			"thorough": "as quick with every string size 0..255, two terminators in string arrays of up to 24 bytes, and the first 8 struct fields as neighbours in H02b",
 		},
 		Outside: []string{"definitions with more than two fields (plus one developer field) and whole files",
 			"definitions the validator accepts that are not 'compatible' in the property's sense (e.g. uint8 with size 2 into a uint16 slot) have no single denoted value; C01 covers their safety",
@@ -650,6 +650,9 @@ func kindSeqs(n int) []int {
 	}
 	var r []int
 	for c := 0; c < total; c++ {
+		if n >= 3 && c%3 != 0 {
+			continue // thorough tier: every third of the 1000 orders (3 and 10 are coprime: every kind occurs in every position)
+		}
 		r = append(r, c)
 	}
 	return r
@@ -676,7 +679,7 @@ func init() {
 		MustReach: []string{"C10.decode.consumes-exactly-the-frame", "C10.decode.never-requests-beyond-frame", "C10.checkintegrity.consumes-exactly-the-frame", "C10.decodeheader.same-header", "C10.headerandfileid.same-fileid", "C10.chained.one-file-per-input", "C10.chained.equals-decoding-alone"},
 		Bounds: map[string]interface{}{
 			"quick":    streamModel + "; n = 2; the frame is followed by three arbitrary bytes; reader chunk sizes 1, 3, 7 and unlimited; chained: two such files",
-			"thorough": "as quick with n = 3",
+			"thorough": "as quick with n = 3 (every third of the 1000 kind orders)",
 		},
 		Outside:     []string{"streams outside the model (device files), chunk patterns that vary within a stream, chains of more than two files, reads larger than the 4096-byte internal buffer"},
 		Assumptions: append([]string{"reader = harness vReader honouring the io.Reader contract (n = 0 only with an error)"}, commonAssumptions...),
@@ -713,7 +716,7 @@ func init() {
 		MustReach: []string{"C11.decode.error-on-cut", "C11.decode.partial-content-is-the-completed-prefix", "C11.checkintegrity.error-on-cut", "C11.decodeheader.error-on-cut", "C11.headerandfileid.error-on-cut", "C11.chained.error-on-cut-in-first-file", "C11.chain.clean-end-on-boundary", "C11.chain.clean-end-after-second-file", "C11.chain.cut-inside-second-file-is-error", "C11.chain.fault-is-error", "C11.chain.stray-byte-is-error"},
 		Bounds: map[string]interface{}{
 			"quick":    streamModel + "; n = 2; every cut offset or every fault offset inside the frame (case-split by the solver) with chunk size 1, 3 or unlimited (one combination per sequence, rotating); chain boundary: file followed by every prefix of a second file, by a fault at every offset of it, or by one arbitrary stray byte",
-			"thorough": "as quick with n = 3 and the full (chunk, fault) grid",
+			"thorough": "as quick with n = 3 (every third of the 1000 kind orders) and the full (chunk, fault) grid",
 		},
 		Outside:     []string{"streams outside the model; readers that violate the io.Reader contract; faults that are not persistent"},
 		Assumptions: append([]string{"reader = harness vReader: clean io.EOF at the cut, or a persistent non-EOF error from the fault offset on"}, commonAssumptions...),
@@ -741,7 +744,7 @@ func init() {
 		MustReach: []string{"C16.options.same-error", "C16.options.same-bytes-consumed", "C16.options.same-messages", "C16.fields.exact", "C16.messages.exact", "C16.fields.absent-without-option", "C16.fields.sorted", "C16.messages.sorted", "C16.fields.count-is-number-of-records", "C16.messages.count-is-number-of-records", "C16.fields.every-key-listed-once"},
 		Bounds: map[string]interface{}{
 			"quick":    streamModel + "; n = 2, uncut (every sequence) and cut at every offset after the file_id record (every third sequence); all 8 option combinations (symbolic); counts and order of the exported lists (H16b): up to 2 rounds of (definition of one of 6 known messages, two with numbers >= 256, with an arbitrary unlisted field number + record; definition of an arbitrary unknown message + record) through the real record loop, keys may repeat, every map iteration order",
-			"thorough": "as quick with n = 3 and 3 rounds",
+			"thorough": "as quick with n = 3 (every third of the 1000 kind orders) and 3 rounds",
 		},
 		Outside:     []string{"streams outside the model; more than one distinct unknown message number / unlisted field number per stream (the model has one of each, with arbitrary values)"},
 		Assumptions: append([]string{"Logger = harness no-op type; map iteration order is a symbolic permutation in H16b; sort.Sort executed from the standard library's SSA"}, commonAssumptions...),
@@ -772,7 +775,7 @@ func init() {
 		NoNativeReplay: map[string]bool{"C08.frame.accumulators-are-per-call": true, "C08.frame.no-state-survives-a-call": true, "C08.frame.encode-writes-no-shared-object": true},
 		Bounds: map[string]interface{}{
 			"quick":    "shared-write frame: Decode (with both counting options), DecodeChained, CheckIntegrity, DecodeHeader, DecodeHeaderAndFileID and Encode on every model stream with n = 2 records plus a stream with the accumulated record sources; call sequences: Decode(B), then Decode/Encode/CheckIntegrity/DecodeChained on a stream A with two activity messages (arbitrary timestamps and local timestamps), then Decode(B) again, for every model stream B with n = 2, results and re-encoded bytes compared; history independence: one record with arbitrary valid accumulated sources decoded from an arbitrary state of the three package-level accumulators (any history's effect is some value of them) versus the fresh state; Encode determinism: two records with different fields under every map iteration order; Encode on hand-built Files: per profile message (first hosting file type) a File with every field set and strings of 2 arbitrary ASCII characters is encoded, then the same File with strings of 0..3 and of 0..5 characters, then the first again: no pre-existing object written, identical bytes",
-			"thorough": "as quick with n = 3 and every hosting file type",
+			"thorough": "as quick with n = 3 (every third of the 1000 kind orders) and every hosting file type",
 		},
 		Outside: []string{"'equal to what a fresh process returns' is taken as 'equal to the run from the interpreted initial state of the package'", "json.go's buffer pool is not on any decode/encode path (no write to it is recorded) and is not claimed",
 			"the two frame assertions are facts about the engine's heap (writes to objects that pre-exist the call) and have no native counterpart; their observable consequence is replayed natively through H08b"},
@@ -796,14 +799,15 @@ func init() {
 			return js
 		},
 		MustReach:      []string{"C09.no-shared-object-is-written", "C09.same-result-as-alone", "C09.race-free"},
-		NoNativeReplay: map[string]bool{"C09.no-shared-object-is-written": true},
+		NoNativeReplay: map[string]bool{"C09.no-shared-object-is-written": true, "C09.pooled-object-used-after-put": true},
 		RaceID:         "C09.race-free",
 		Explanation:    "The engine has no thread interleavings. The claim is reduced to a non-interference premise that is decidable here: (P) within the stated bounds no decoding/encoding entry point writes an object that exists before the call (package-level variables and everything package initialisation allocated), decided by symbolic execution with write provenance over all stream contents of the model. (P) implies that any interleaving of calls on independent readers, writers and Files is race-free and returns what each call returns alone (disjoint-state argument, stated not machine-checked; standard-library internals are assumed goroutine-safe as documented). Every path's model is additionally replayed natively with the two calls in separate goroutines under the Go race detector; where (P) fails (the package-level accumulators) the native replay must show a detector report before the finding is printed.",
 		Bounds: map[string]interface{}{
 			"quick":    "pairs of calls: Decode+Encode+CheckIntegrity on one model stream (n = 2 records, every kind order, arbitrary bytes) against Decode+DecodeChained on another; plus the accumulator exception on two concrete streams; plus two concurrent Encodes of hand-built Files hosting the same message with every field set (per profile message, first hosting file type)",
-			"thorough": "as quick with n = 3 and every hosting file type",
+			"thorough": "as quick with n = 3 (every third of the 1000 kind orders) and every hosting file type",
 		},
 		Outside:     []string{"interleavings themselves (no schedule is explored symbolically); more than two concurrent calls; streams outside the model"},
-		Assumptions: append([]string{"disjoint-state argument from (P) to race freedom is a paper argument"}, commonAssumptions...),
+		Assumptions: append([]string{"disjoint-state argument from (P) to race freedom is a paper argument",
+			"M-sync-pool: sync.Pool is a LIFO list per pool (Get returns the most recently Put object, else New()); its own bookkeeping is goroutine-safe and not a shared write; an access to an object (or anything reachable from it) between Put and the Get that hands it out again is reported as C09.pooled-object-used-after-put (a fact about the engine's heap, no native counterpart)"}, commonAssumptions...),
 	})
 }
